@@ -4,7 +4,7 @@ independent agents (they saw nothing of /verif).  Every check must stay silent o
 
   neutral_corpus.py build [names...]   apply each patch to a scratch worktree of /repo (outside /repo and /verif), dump the
                                        PDB to /tmp/ncorpus/<name>.json (development cache only), undo
-  neutral_corpus.py run [-p C03] [names...]   run all (or one) checks on the cached PDBs; prints alarms
+  neutral_corpus.py run [-p C03] [--own] [names...]   run all (or one; --own: only the patch's own property's) checks on the cached PDBs; prints alarms
 """
 import json
 import os
@@ -94,6 +94,8 @@ def run(ns, prop=None):
             print(n, "no cached PDB (run build)")
             continue
         for pr in props:
+            if "--own" in sys.argv and pr != "C" + n[1:3]:
+                continue            # only the check of the property the patch was written for (20 times cheaper)
             jobs.append((n, pr, p))
 
     def one(j):
